@@ -303,7 +303,13 @@ class Run:
                 b = list(ex.map(_worker_shard, det_jobs))
                 for x, y in zip(a, b):
                     if x['digest'] != y['digest'] or x['outcomes'] != y['outcomes']:
-                        raise HarnessError('nondeterministic observations in family %s' % _FAMS[x['fam']].name)
+                        # The harness owns every source of nondeterminism (verified on the unchanged tree over several
+                        # seeds), so observations that differ between two executions of the same cases in different
+                        # worker processes mean that the library's answers depend on hidden state left by earlier
+                        # calls (a cache, a shared default, a leaked global): a violation of the functional property.
+                        self.add_violation({'family': _FAMS[x['fam']].name, 'case': {'first_case': x['first'], 'cases': x['n']},
+                                            'msg': 'observations of the same cases differ between two worker processes: results depend on hidden state left by earlier calls',
+                                            'expected': x['outcomes'], 'observed': y['outcomes'], 'classifier': None})
                 self.selftest['determinism_replayed_cases'] = sum(x['n'] for x in a)
                 futs = {ex.submit(_worker_shard, j): j for j in jobs}
                 for fut in as_completed(futs):
@@ -360,7 +366,8 @@ class Run:
                 again = list(ex.map(_worker_bfs, [(idx, c) for c in chunks[:4]]))
                 for r1, r2 in zip(results, again):
                     if [(k, e, h) for k, e, h in r1['out']] != [(k, e, h) for k, e, h in r2['out']] or r1['outcomes'] != r2['outcomes']:
-                        raise HarnessError('nondeterministic transition replay in BFS family %s' % fam.name)
+                        self.add_violation({'family': fam.name, 'case': {'depth': d}, 'msg': 'replaying the same transitions in another worker process gives different states: results depend on hidden state left by earlier calls',
+                                            'expected': r1['outcomes'], 'observed': r2['outcomes'], 'classifier': None})
                 self.selftest['bfs_transitions_replayed_twice'] = self.selftest.get('bfs_transitions_replayed_twice', 0) + sum(r['ntrans'] for r in again)
             new = []
             cand = []
@@ -539,3 +546,16 @@ def deviation_sets(points, k, kmin=0):
         for idxs in itertools.combinations(range(len(points)), j):
             for alts in itertools.product(*[points[i][2] for i in idxs]):
                 yield {points[i][0]: a for i, a in zip(idxs, alts)}
+
+
+def all_sequences(nevents, maxlen, first=None):
+    """every sequence of event indices of length 1..maxlen (optionally with a fixed first event)"""
+    if first is None:
+        for l in range(1, maxlen + 1):
+            for t in itertools.product(range(nevents), repeat=l):
+                yield t
+    else:
+        yield (first,)
+        for l in range(1, maxlen):
+            for t in itertools.product(range(nevents), repeat=l):
+                yield (first,) + t
